@@ -1783,3 +1783,128 @@ Proof.
   fold (lex_run bs). fold (raw_tokens bs). rewrite balanced_prefix_id by exact B.
   apply conf_loop_old_same. exact H.
 Qed.
+
+(* ------------------------------------------------------------------------------------------- *)
+(* "malformed" at full strength: the decimal parser accepts exactly [+-]?[0-9]+ inside the range, with its value *)
+Fixpoint dval (acc : Z) (ds : bytes) : Z :=
+  match ds with [] => acc | c :: r => dval (acc * 10 + Z.of_N (c - 48))%Z r end.
+Definition decimal_shape (s sign ds : bytes) : Prop :=
+  s = sign ++ ds /\ (sign = [] \/ sign = [43] \/ sign = [45]) /\ ds <> [] /\ Forall (fun c => is_digit c = true) ds.
+
+Lemma dec_z_spec : forall s acc v, dec_z acc s = Some v <-> Forall (fun c => is_digit c = true) s /\ v = dval acc s.
+Proof.
+  induction s as [|c r IH]; intros acc v; cbn [dec_z dval].
+  - split; [intros H; inversion H; split; [constructor|reflexivity] | intros [_ ->]; reflexivity].
+  - destruct (is_digit c) eqn:E.
+    + rewrite IH. split; intros [H1 H2]; (split; [|assumption]).
+      * constructor; assumption.
+      * inversion H1; assumption.
+    + split; [discriminate|]. intros [H _]. inversion H; congruence.
+Qed.
+
+Lemma parse_int_other lo hi c r : c <> 45 -> c <> 43 ->
+  parse_int lo hi (c :: r) = match dec_z 0 (c :: r) with
+                             | None => None
+                             | Some v => if ((lo <=? v) && (v <=? hi))%Z then Some v else None
+                             end.
+Proof.
+  intros H1 H2. unfold parse_int. destruct c as [|p]; [reflexivity|]. do 7 (try destruct p as [p|p|]); try reflexivity; contradiction.
+Qed.
+
+Theorem parse_int_spec lo hi s z :
+  parse_int lo hi s = Some z <->
+  exists sign ds, decimal_shape s sign ds /\ z = (if bytes_eqb sign [45%N] then - dval 0 ds else dval 0 ds)%Z /\ (lo <= z <= hi)%Z.
+Proof.
+  assert (DIG : forall c, is_digit c = true -> c <> 45 /\ c <> 43) by (intros c H; unfold is_digit, in_range in H; lia).
+  assert (BODY : forall (neg : bool) (body : bytes), (match body with
+      | [] => None
+      | _ => match dec_z 0 body with
+             | None => None
+             | Some v => let v := if neg then (- v)%Z else v in if ((lo <=? v) && (v <=? hi))%Z then Some v else None
+             end end = Some z) <->
+      (body <> [] /\ Forall (fun c => is_digit c = true) body /\ z = (if neg then - dval 0 body else dval 0 body)%Z /\ (lo <= z <= hi)%Z)).
+  { intros neg body. destruct body as [|c r]; [split; [discriminate|intros [H _]; contradiction]|].
+    destruct (dec_z 0 (c :: r)) as [v|] eqn:D.
+    - apply dec_z_spec in D. destruct D as [DF ->]. remember (dval 0 (c :: r)) as dv eqn:Edv. destruct neg; cbv beta iota zeta.
+      + destruct ((lo <=? - dv)%Z && (- dv <=? hi)%Z) eqn:R.
+        * split; [intros H; inversion H; subst; repeat split; try discriminate; try assumption; lia | intros (_ & _ & -> & _); reflexivity].
+        * split; [discriminate|]. intros (_ & _ & -> & H). lia.
+      + destruct ((lo <=? dv)%Z && (dv <=? hi)%Z) eqn:R.
+        * split; [intros H; inversion H; subst; repeat split; try discriminate; try assumption; lia | intros (_ & _ & -> & _); reflexivity].
+        * split; [discriminate|]. intros (_ & _ & -> & H). lia.
+    - split; [discriminate|]. intros (_ & HF & _). assert (X : dec_z 0 (c :: r) = Some (dval 0 (c :: r))) by (apply dec_z_spec; auto). congruence. }
+  destruct s as [|c r].
+  - unfold parse_int. rewrite (BODY false []). split; [intros [H _]; contradiction|]. intros (sign & ds & (E & _ & Hne & _) & _).
+    destruct sign; destruct ds; try discriminate. contradiction.
+  - destruct (N.eq_dec c 45) as [->|N45]; [|destruct (N.eq_dec c 43) as [->|N43]].
+    + unfold parse_int. rewrite (BODY true r). split.
+      * intros (Hne & HF & -> & Hr). exists [45], r. split; [repeat split; auto|split; [reflexivity|exact Hr]].
+      * intros (sign & ds & (E & Hs & Hne & HF) & -> & Hr). destruct Hs as [->|[->| ->]]; cbn in E.
+        -- subst ds. inversion HF as [|? ? Hd _]. destruct (DIG _ Hd). congruence.
+        -- discriminate.
+        -- injection E as <-. cbn. auto.
+    + unfold parse_int. rewrite (BODY false r). split.
+      * intros (Hne & HF & -> & Hr). exists [43], r. split; [repeat split; auto|split; [reflexivity|exact Hr]].
+      * intros (sign & ds & (E & Hs & Hne & HF) & -> & Hr). destruct Hs as [->|[->| ->]]; cbn in E.
+        -- subst ds. inversion HF as [|? ? Hd _]. destruct (DIG _ Hd). congruence.
+        -- injection E as <-. cbn. auto.
+        -- discriminate.
+    + rewrite parse_int_other by assumption. pose proof (BODY false (c :: r)) as B. cbv beta iota zeta in B. rewrite B. split.
+      * intros (Hne & HF & -> & Hr). exists [], (c :: r). split; [repeat split; auto|split; [reflexivity|exact Hr]].
+      * intros (sign & ds & (E & Hs & Hne & HF) & -> & Hr). destruct Hs as [->|[->| ->]]; cbn in E.
+        -- subst ds. cbn. auto.
+        -- injection E as E1 _. congruence.
+        -- injection E as E1 _. congruence.
+Qed.
+
+(* ------------------------------------------------------------------------------------------- *)
+(* a re-opened domain and a repeated key, through the grammar theorems: the lines of both blocks in order, the last value *)
+Definition ex2_doc : list piece :=
+  [POpen (raw "a"%hex) []; PText (map ARaw (raw "k=1"%hex) ++ [ARaw 10]); PClose (raw "a"%hex) [];
+   POpen (raw "b"%hex) []; PClose (raw "b"%hex) [];
+   POpen (raw "a"%hex) [32]; PText (map ARaw (raw "k = 2"%hex) ++ [ARaw 10] ++ map ARaw (raw "k=3"%hex)); PClose (raw "a"%hex) []].
+Definition ex2_dec (l : list atom) : list gline * bool :=
+  if (length l =? 4)%nat then ([GKV [] (raw "k"%hex) [] [] (raw "1"%hex) []], true)
+  else ([GKV [] (raw "k"%hex) [32] [32] (raw "2"%hex) []; GKV [] (raw "k"%hex) [] [] (raw "3"%hex) []], false).
+
+Example ex2_doc_ok : doc_ok ex2_doc.
+Proof. unfold doc_ok. split; [|split]; solve_ok. Qed.
+Example ex2_short : short_lines (tokens_of ex2_doc).
+Proof.
+  intros t seg Hin Hseg. vm_compute in Hin.
+  repeat (destruct Hin as [Hin|Hin]; [first [discriminate Hin | injection Hin as <-; vm_compute in Hseg;
+    repeat (destruct Hseg as [<-|Hseg]; [vm_compute; reflexivity|]); contradiction]|]).
+  contradiction.
+Qed.
+Example ex2_no_clobber : no_clobber (piece_events ex2_doc).
+Proof.
+  intros K l Hin Hk HL. vm_compute in Hin.
+  repeat (destruct Hin as [Hin|Hin]; [first [discriminate Hin | injection Hin as <- <-;
+    destruct HL as [HL|HL]; [vm_compute in HL; discriminate HL|vm_compute in HL; repeat (destruct HL as [HL|HL]; [discriminate HL|]); contradiction]]|]).
+  contradiction.
+Qed.
+Example ex2_grammar_text : grammar_text ex2_dec ex2_doc.
+Proof.
+  intros l Hl. vm_compute in Hl.
+  repeat (destruct Hl as [Hl|Hl]; [first [discriminate Hl | injection Hl as <-]|]); try contradiction.
+  - split; [|reflexivity]. evalfst. apply Forall_cons; [|apply Forall_nil].
+    repeat (split; [bl|]). split; [ckey 107 (@nil N) (@nil N) 107 | cval 49 (@nil N) (@nil N) 49].
+  - split; [|reflexivity]. evalfst. apply Forall_cons; [|apply Forall_cons; [|apply Forall_nil]].
+    + repeat (split; [bl|]). split; [ckey 107 (@nil N) (@nil N) 107 | cval 50 (@nil N) (@nil N) 50].
+    + repeat (split; [bl|]). split; [ckey 107 (@nil N) (@nil N) 107 | cval 51 (@nil N) (@nil N) 51].
+Qed.
+
+Example ex2_reopened_domain : exists t, parse (render ex2_doc) = Ok t /\
+  get_int_def t (path_string [raw "a"%hex] (Some (raw "k"%hex))) 0%Z = Ok 3%Z /\
+  get_domain_line t (path_string [raw "a"%hex] None) = Ok [raw "k=1"%hex; raw "k = 2"%hex; raw "k=3"%hex].
+Proof.
+  destruct (grammar_value ex2_dec ex2_doc [raw "a"%hex] (raw "k"%hex) ex2_doc_ok ex2_short ex2_no_clobber ex2_grammar_text) as (t & Hp & _ & H2 & _).
+  - apply Forall_cons; [|apply Forall_nil]. split; [discriminate|split; notin].
+  - repeat split; try notin; [exists 107, []|exists [], 107]; split; try reflexivity; discriminate.
+  - vm_compute. discriminate.
+  - exists t. split; [exact Hp|]. split; [rewrite H2; vm_compute; reflexivity|].
+    destruct (grammar_lines ex2_dec ex2_doc [raw "a"%hex] ex2_doc_ok ex2_short ex2_no_clobber ex2_grammar_text) as (t' & Hp' & HL).
+    + apply Forall_cons; [|apply Forall_nil]. split; [discriminate|split; notin].
+    + right. vm_compute. left. reflexivity.
+    + rewrite Hp in Hp'. injection Hp' as <-. rewrite HL. vm_compute. reflexivity.
+Qed.
